@@ -16,6 +16,7 @@ func configs(quick bool) []Cfg {
 	nonce := []string{"propose:max", "dkgfast", "req", "sig", "block", "jumpexec"}
 	signed := []string{"propose:max", "dkgfast", "sig", "req", "inde", "block", "jumpexec"}
 	again := []string{"propose:min", "propose:max", "force:min", "probe", "dkgfast", "block", "jumpexec", "expire"}
+	staleSig := []string{"propose:max", "dkgfast", "stale", "sig", "block", "jumpexec"}
 	if quick {
 		return []Cfg{
 			// A: the whole life cycle of one proposal at round granularity, all timings around the exec time
@@ -40,6 +41,10 @@ func configs(quick bool) []Cfg {
 			// (unfinished, expired, finished)
 			{Name: "after-a-dropped-proposal", CurN: 2, CurT: 2, IncN: 2, IncT: 1, SigningPeriod: 3, MaxSigningAttempt: 1, CreationPeriod: 3,
 				InitDE: 3, MaxProposals: 2, MaxReq: 0, MaxTransitionSec: 60, FeePerSigner: 7, Events: again, Depth: 8},
+			// H: the hand-over signing of a dropped transition stays open in x/tss (long signing period) and is
+			// signed while a second transition waits for its own hand-over signature
+			{Name: "stale-handover-signing", CurN: 2, CurT: 1, IncN: 2, IncT: 1, SigningPeriod: 30, MaxSigningAttempt: 2, CreationPeriod: 8,
+				InitDE: 4, MaxProposals: 2, MaxReq: 0, MaxTransitionSec: 15, FeePerSigner: 7, Events: staleSig, Depth: 11},
 		}
 	}
 	lifeMsg := []string{"propose:max", "probe", "dkg", "dkgmsg", "spoil", "sigany", "block", "jumpexec"}
@@ -69,6 +74,8 @@ func configs(quick bool) []Cfg {
 			InitDE: 3, MaxProposals: 1, MaxReq: 2, MaxTransitionSec: 60, FeePerSigner: 7, Events: signedT, Depth: 8},
 		{Name: "after-a-dropped-proposal", CurN: 2, CurT: 2, IncN: 2, IncT: 1, SigningPeriod: 3, MaxSigningAttempt: 1, CreationPeriod: 4,
 			InitDE: 3, MaxProposals: 2, MaxReq: 0, MaxTransitionSec: 60, FeePerSigner: 7, Events: againT, Depth: 11},
+		{Name: "stale-handover-signing", CurN: 2, CurT: 2, IncN: 2, IncT: 1, SigningPeriod: 6, MaxSigningAttempt: 3, CreationPeriod: 8,
+			InitDE: 6, MaxProposals: 2, MaxReq: 0, MaxTransitionSec: 15, FeePerSigner: 7, Events: append(append([]string{}, staleSig...), "sigany", "probe", "jump"), Depth: 14},
 	}
 }
 
